@@ -51,6 +51,7 @@ type source struct {
 	fired     bool
 	gating    bool
 	postGate  bool // with gating: every Read parks a second time after it has filled the caller's buffer
+	short     int  // > 0: a Read returns at most this many bytes (a short read, which io.Reader allows, is not the end)
 	arrivals  chan chan struct{} // each gated Read sends its release channel
 	inFlight  int
 	maxFlight int
@@ -108,6 +109,9 @@ func (f *srcFile) Read(p []byte) (int, error) {
 	if fail {
 		return 0, errSource
 	}
+	if s.short > 0 && len(p) > s.short {
+		p = p[:s.short]
+	}
 	n, err := f.File.Read(p)
 	if gating && s.postGate {
 		// park once more with the bytes in the caller's buffer, before the caller does anything with them
@@ -152,6 +156,8 @@ type Case struct {
 	Sticky bool `json:"sticky,omitempty"`
 	// BrokenReopens: with Sticky, how many further opens are attempted while everything is still broken, before the repair
 	BrokenReopens int `json:"broken_reopens,omitempty"`
+	// Short: the source's reads return at most this many bytes each (0 = as many as asked)
+	Short int `json:"short,omitempty"`
 }
 
 type env struct {
@@ -174,7 +180,7 @@ func newEnv(c Case) *env {
 		must(inner.MkdirAll("d/e", 0o755))
 	}
 	must(hackpadfs.WriteFullFile(inner, c.Name, e.want, 0o644))
-	e.src = &source{inner: inner, noSeek: c.NoSeek, arrivals: make(chan chan struct{}, 16)}
+	e.src = &source{inner: inner, noSeek: c.NoSeek, short: c.Short, arrivals: make(chan chan struct{}, 16)}
 	e.store = subj.NewMem()
 	e.hooks = &masks.Hooks{}
 	set := []string{"OpenFileFS", "MkdirFS"}
@@ -394,6 +400,10 @@ func TestFaults(t *testing.T) {
 			Reopens:       rapid.IntRange(1, 3).Draw(rt, "reopens"),
 			Sticky:        rapid.IntRange(0, 2).Draw(rt, "sticky") == 0,
 			BrokenReopens: rapid.IntRange(0, 2).Draw(rt, "brokenreopens"),
+		}
+		if c.Size <= 2000 && rapid.IntRange(0, 3).Draw(rt, "shortreads") == 0 {
+			c.Short = rapid.SampledFrom([]int{100, 200, 511}).Draw(rt, "short")
+			rec.Class("short-reading-source")
 		}
 		rec.Step(c)
 		sig, msg, out := checkFaults(c)
